@@ -6,7 +6,16 @@
 (*   freshly built ones; str / simp = the plan rebuilt from Plan.String() / Plan.Simplify().      *)
 (* One TCase step per case: the step is the Exec action of Asm applied to the recorded root; the  *)
 (* recorded outcomes are compared with it and with each other.  Obligations:                      *)
-(*   Total         every outcome is ok or err (Robust: panic is not in the next-state relation)   *)
+(*   Total         every outcome is ok or err: the outcome automaton of spec/Robust.tla offers an *)
+(*                 ordinary entry point exactly Return(ok) and Return(err); "hang" (the call did   *)
+(*                 not come back within the watchdog limit; m = the library call it is stuck in),  *)
+(*                 "panic" (a panic that escaped, e.g. out of asm.NewPlan) and "crash" (the        *)
+(*                 process died) are not transitions.  Judged for NewPlan, Execute, String,        *)
+(*                 Simplify and the SEN-text pipeline sen.Parse -> NewPlan -> Execute (txt).       *)
+(*   TextPipeline  the plan written as SEN text (strings quoted / bare tokens), parsed and run,    *)
+(*                 behaves like the plan built from values                                         *)
+(*   HistoryFree   (cases with a history: npre plans were executed before it in the same process)  *)
+(*                 the plan behaves like the same plan run alone in a fresh process                *)
 (*   Deterministic all five runs give the same outcome and the same root'                         *)
 (*   PrintRebuild  the rebuilt plans behave like a freshly built one                              *)
 (*   PlanUnchanged String() before = after Execute; same object on a 2nd root = fresh plan on it  *)
@@ -15,6 +24,10 @@
 (* Mismatches are collected in TLC register 1 (needs -workers 1).                                 *)
 EXTENDS Asm, Json
 CONSTANT MaxBad
+
+\* the outcome automaton of C06 (spec/Robust.tla): only its constant-level operators are used here
+RB == INSTANCE Robust WITH Apis <- {"asm.Plan.Execute"}, MustApis <- {}, MaxCalls <- 0, tally <- 0, pending <- 0
+Returned(r) == RB!Allowed(FALSE, r)
 
 Tr == ndJsonDeserialize("trace.ndjson")
 NT == Len(Tr)
@@ -49,6 +62,13 @@ HasMinInt(n) == CASE n.t = "bigint" -> Len(n.d) = 19 /\ n.d[1] = 9
                   [] n.t = "call" -> \E j \in 1..Len(n.a) : HasMinInt(n.a[j])
                   [] n.t = "pair" -> HasMinInt(n.c) \/ HasMinInt(n.v)
                   [] OTHER -> FALSE
+RECURSIVE HasNegZero(_)
+HasNegZero(n) == CASE n.t = "flt" -> "nz" \in DOMAIN n
+                   [] n.t = "arr" -> \E j \in 1..Len(n.v) : HasNegZero(n.v[j])
+                   [] n.t = "obj" -> \E x \in DOMAIN n.m : HasNegZero(n.m[x])
+                   [] n.t = "call" -> \E j \in 1..Len(n.a) : HasNegZero(n.a[j])
+                   [] n.t = "pair" -> HasNegZero(n.c) \/ HasNegZero(n.v)
+                   [] OTHER -> FALSE
 Judge(e, i) ==
   LET p == e.plan
       rs == [j \in 1..5 |-> IF "eq" \in DOMAIN e.runs[j] THEN e.runs[1] ELSE e.runs[j]]   \* {eq: 1} = identical to run 1
@@ -63,11 +83,21 @@ Judge(e, i) ==
       big == fo.t = "call" /\ \E j \in 1..Len(fo.a) : argBig(fo.a[j])
       mk(kind, loc) == [i |-> i, kind |-> kind, loc |-> loc, cell |-> cell, depth |-> DepthOf(fo), big |-> big,
                         arg1 |-> IF fo.t = "call" /\ Len(fo.a) >= 1 THEN ArgClass(fo.a[1]) ELSE "none"]
-      \* ---- Total
-      panics == {j \in 1..5 : rs[j].r \notin {"ok", "err"}}
-      total == IF panics # {} THEN <<mk("panic", <<"Execute">>)>>
+      \* ---- Total (the obligation of spec/Robust.tla: an outcome is a Return transition, ok or err)
+      etxt == [j \in 1..2 |-> IF "eq" \in DOMAIN e.txt[j] THEN e.runs[1] ELSE e.txt[j]]
+      panics == {j \in 1..5 : ~Returned(rs[j].r)}
+      hung == {j \in 1..5 : rs[j].r = "hang"}
+      crashed == {j \in 1..5 : rs[j].r = "crash"}
+      \* (the rebuilt / text plans may also be "unparsable" or "skip": PrintRebuild / TextPipeline judge those)
+      Escaped(x) == x.r \in {"panic", "hang", "crash"}
+      total == IF hung # {} THEN <<mk("hang", <<rs[CHOOSE j \in hung : TRUE].m>>)>>
+               ELSE IF crashed # {} THEN <<mk("panic", <<"process-crash">>)>>
+               ELSE IF panics # {} THEN <<mk("panic", <<"Execute">>)>>
                ELSE IF estr.r = "panic" THEN <<mk("panic", <<"String">>)>>
-               ELSE IF esimp.r = "panic" THEN <<mk("panic", <<"Simplify">>)>> ELSE <<>>
+               ELSE IF esimp.r = "panic" THEN <<mk("panic", <<"Simplify">>)>>
+               ELSE IF \E j \in 1..2 : Escaped(etxt[j]) THEN <<mk("panic", <<"text-pipeline">>)>>
+               ELSE IF Escaped(e.alt_same) \/ ("eq" \notin DOMAIN e.alt_fresh /\ Escaped(e.alt_fresh)) THEN <<mk("panic", <<"second-root">>)>>
+               ELSE <<>>
       \* ---- Deterministic
       freshSame == Same(rs[4], rs[5]) /\ Same(rs[4], rs[1])
       allSame == \A j \in 2..5 : Same(rs[j], rs[1])
@@ -85,6 +115,17 @@ Judge(e, i) ==
       pr == IF panics # {} \/ ~freshSame \/ HasMultiPath(p) THEN <<>>
             ELSE (IF prOk(estr) THEN <<>> ELSE <<mk("print-rebuild", <<"String", feat, estr.r>>)>>)
                  \o (IF prOk(esimp) THEN <<>> ELSE <<mk("print-rebuild", <<"Simplify", feat, esimp.r>>)>>)
+      \* ---- TextPipeline: the SEN text of the plan (1: every string quoted, 2: bare tokens where SEN allows them), parsed by a
+      \* fresh sen.Parser and handed to NewPlan, behaves like the plan built from the values.  Not judged where the known
+      \* reader defect C20-10 (int64-edge literals) applies and for the literal -0.0 (its text form is not part of the statement).
+      txOk(x) == x.r = "skip" \/ Escaped(x) \/ (x.r = rs[4].r /\ (x.root = rs[4].root \/ Norm(x.root) = Norm(rs[4].root)))
+      tx == IF panics # {} \/ ~freshSame \/ HasMultiPath(p) \/ HasMinInt(p) \/ HasNegZero(p) THEN <<>>
+            ELSE (IF txOk(etxt[1]) THEN <<>> ELSE <<mk("text-pipeline", <<"quoted", etxt[1].r>>)>>)
+                 \o (IF txOk(etxt[2]) THEN <<>> ELSE <<mk("text-pipeline", <<"bare", etxt[2].r>>)>>)
+      \* ---- HistoryFree: the same plan after other plans (same process) = the plan alone in a fresh process
+      hf == IF e.npre = 0 \/ panics # {} \/ e.alone.r = "skip" \/ HasMultiPath(p) THEN <<>>
+            ELSE IF e.alone.r = rs[1].r /\ (e.alone.root = rs[1].root \/ Norm(e.alone.root) = Norm(rs[1].root)) THEN <<>>
+            ELSE <<mk("history-dependent", <<"alone", e.alone.r, rs[1].r>>)>>
       \* ---- PlanUnchanged: executing a plan does not rewrite it.  (1) String() of the executed Plan object is the same before
       \* the first and after the last Execute; (2) the executed object, run on a second and different root, behaves like a
       \* freshly built plan on that root ({eq: 1} = the harness found the two observations identical)
@@ -100,12 +141,19 @@ Judge(e, i) ==
       frameBad == {j \in idx : rs[j].r \in {"ok", "err"} /\ Norm(SrcOf(rs[j].root)) # Norm(SrcOf(e.root))}
       fr == IF frameBad # {} /\ ~MayTouchSrc(p) THEN <<mk("frame", <<"SrcFrame">>)>> ELSE <<>>
       \* ---- Semantics (first run; runs are compared with each other above)
-      sem == IF panics # {} \/ E.k = "any" THEN <<>>
-             ELSE IF E.k = "err" THEN (IF rs[1].r = "err" THEN <<>> ELSE <<mk("wrong-value", <<"sem", "exp-err", rs[1].r>>)>>)
+      \* (a string literal that starts with $ or @ is a plain string unless jp accepts it as a path - a fact recorded by the
+      \* harness; the generated universe holds none that jp accepts, so such a case is simply not judged)
+      SemBad(X) == IF panics # {} \/ X.k = "any" \/ e.jpok THEN <<>>
+             ELSE IF X.k = "err" THEN (IF rs[1].r = "err" THEN <<>> ELSE <<mk("wrong-value", <<"sem", "exp-err", rs[1].r>>)>>)
              ELSE IF rs[1].r # "ok" THEN <<mk("wrong-value", <<"sem", "exp-ok", rs[1].r>>)>>
-             ELSE IF Norm(rs[1].root) # Norm(E.root) THEN <<mk("wrong-value", <<"sem", "exp-ok", "other-root">>)>>
+             ELSE IF Norm(rs[1].root) # Norm(X.root) THEN <<mk("wrong-value", <<"sem", "exp-ok", "other-root">>)>>
              ELSE <<>>
-  IN [bad |-> total \o det \o pr \o pu \o fr \o sem, k |-> E.k, cell |-> cell, post |-> IF E.k = "ok" THEN E.root ELSE e.root]
+      \* a plan that uses mod is judged against every reading of mod's sign rule (Asm.ModReadings): the code must agree
+      \* with ONE reading for the whole plan (a plan with several mod calls binds them to the same rule)
+      hasMod == \E j \in 1..Len(Calls(p)) : Calls(p)[j].fn = "mod"
+      sem == IF ~hasMod \/ SemBad(E) = <<>> THEN SemBad(E)
+             ELSE IF \E rd \in ModReadings : SemBad(ExecRd(p, e.root, rd)) = <<>> THEN <<>> ELSE SemBad(E)
+  IN [bad |-> total \o det \o pr \o tx \o hf \o pu \o fr \o sem, k |-> E.k, cell |-> cell, post |-> IF E.k = "ok" THEN E.root ELSE e.root]
 
 TCase == /\ ci <= NT
          /\ LET e == Tr[ci]
